@@ -85,6 +85,9 @@ type PolicySpec struct {
 	P      float64 `json:"p,omitempty"`      // probability of a random pick for first/last
 	Starve string  `json:"starve,omitempty"` // label substring starved by "starve"
 	DelayP float64 `json:"delayp,omitempty"` // probability that a released seam op is delayed first
+	// ReplyP: probability that the reply of a storage Read is delivered late (the
+	// data is read at one instant, the caller gets it 1 s .. 1000 s later).
+	ReplyP float64 `json:"replyp,omitempty"`
 }
 
 // CrashSpec is one process death.
